@@ -1067,12 +1067,23 @@ pub fn run_generated(spec: &xlsxgen::XlsxSpec, st: xlsxgen::Steer, obs: &mut Obs
     }
     for s in &r.model.sheets {
         let mut seen: BTreeSet<String> = BTreeSet::new();
+        if s.cells.iter().any(|c| !c.has_r) && s.cells.iter().any(|c| c.kind == "blank" && c.row == 501) {
+            obs.class("no-r-mixed-with-self-closing-cells");
+        }
         for c in &s.cells {
             if c.kind != "blank" && seen.insert(cell_feature(c)) {
                 obs.class(format!("enc/{}", cell_feature(c)));
             }
             if c.f_type.as_deref() == Some("shared") && !c.f_master && seen.insert("shared-child".into()) {
                 obs.class("enc/shared-child");
+            }
+            if c.f_type.as_deref() == Some("shared") && !c.f_master {
+                // children whose text mixes locked and relative parts ($A2, B$1): a reader that
+                // swaps the lock flags or the offsets shows a different text
+                let mixed = c.formula.as_deref().map_or(false, |f| xlsxgen::scan_refs(f).iter().any(|r| r.2 != r.3));
+                if mixed && seen.insert("shared-child-mixed-lock".into()) {
+                    obs.class("shared-child-mixed-lock-refs");
+                }
             }
         }
         if !s.tables.is_empty() {
